@@ -155,7 +155,8 @@ func (r *Runner) VersionID(b, k string, ref int) string {
 	}
 	ever := mb.Keys[k].Ever
 	if ref < 0 {
-		ref = -ref
+		// negative references count from the most recently issued ID (-1 = newest)
+		return ever[len(ever)-1-((-ref-1)%len(ever))]
 	}
 	return ever[ref%len(ever)]
 }
